@@ -577,7 +577,7 @@ func r11_4(c *Ctx, r *Report) {
 	// plain delegation chains of the reverse lookup and the fortune start
 	for _, t := range []struct {
 		from, to string
-		k      int64
+		k        int64
 	}{{"calendar.ListSolarFromBaZi", "calendar.ListSolarFromBaZiBySect", 2}, {"calendar.ListSolarFromBaZiBySect", "calendar.ListSolarFromBaZiBySectAndBaseYear", 1900}, {"calendar.(*EightChar).GetYun", "calendar.(*EightChar).GetYunBySect", 1}} {
 		fn := c.Fn(r, rule, t.from)
 		if fn == nil {
